@@ -760,6 +760,16 @@ func runC03(c *Ctx) {
 	ruleResetBefore(c, p, "C03.reset")
 	rulePacketRead(c, p, "C03.packet-read")
 	ruleEndMarker(c, p, "C03.endmarker")
+	ruleChainComplete(c, p, "C03.chain")
+	ruleReaderSource(c, p, "C03.source")
+	ruleReadFull(c, p, "C03.readfull")
+	{
+		c.R.Rule("C03.messages", "E2 containment and gate provenance (as C17.shape / C17.gates / C17.fieldorder) for every protocol message: what the server-side encoders of progress, profile, exception, table columns, ... emit at a revision is what the client's decoders consume at that revision")
+		pairs := messagePairs(p)
+		ruleShapePairs(c, p, "C03.messages", pairs, false)
+		ruleGates(c, p, pairs, "C03.messages")
+	}
+	ruleWatch(c, p, r, "C03")
 	// read errors on the client's receive path reach only failure exits
 	c.R.Rule("C03.errors", "E6 (as C07.errors) restricted to package ch: every error of a read or decode on the receive path (packet code, exception, progress, profile, blocks) reaches only failure exits, so Do returns nil only for a stream that was read completely")
 	{
@@ -955,4 +965,40 @@ func nonEmptyRoot(v ssa.Value, d int, seen map[ssa.Value]bool) string {
 		}
 	}
 	return ""
+}
+
+// ruleChainComplete: exception() reads the whole nested chain.
+func ruleChainComplete(c *Ctx, p *core.Program, rule string) {
+	c.R.Rule(rule, "Client.exception() stops reading nested exceptions only when the last one decoded says it is the last (`Nested` false): every success exit lies behind the false edge of a test of Exception.Nested and of nothing else that can end the loop - a cap on the chain length leaves the rest of the chain unread in the stream while the client stays open (a server exception does not close it), so the next request reads leftovers")
+	cfg := p.Cfg.Name
+	ex := p.Method(core.PkgCh, "Client", "exception")
+	if !c.must(p, "(*ch.Client).exception", ex != nil) {
+		return
+	}
+	notNested := core.CondEdges(ex, false, func(cond ssa.Value) (bool, bool) {
+		return true, strings.HasSuffix(core.FieldOrigin(cond, 0), "Exception.Nested")
+	})
+	if len(notNested) == 0 {
+		c.R.Bad(rule, core.FuncName(ex), cfg, p.Pos(ex.Pos()), "exception() never tests Exception.Nested")
+		return
+	}
+	bad := false
+	for _, b := range ex.Blocks {
+		ret, ok := b.Instrs[len(b.Instrs)-1].(*ssa.Return)
+		if !ok || b.Comment == "recover" {
+			continue
+		}
+		rv := core.ReturnErr(ex, ret)
+		if rv != nil && !core.MayBeNilError(rv, 0) {
+			continue
+		}
+		// loop exits other than the Nested test: remove the not-nested edges and see whether the exit is still reachable
+		if !core.OnlyViaEdges(ex, ret, notNested) {
+			bad = true
+			c.R.Bad(rule, core.FuncName(ex), cfg, p.Pos(ret.Pos()), "exception() can return successfully although the last decoded exception announced a nested one: the remainder of the chain stays in the stream")
+		}
+	}
+	if !bad {
+		c.R.Ok(rule, core.FuncName(ex), cfg, p.Pos(ex.Pos()), "success only after an exception with Nested = false")
+	}
 }
